@@ -161,15 +161,38 @@ def run(ctx: Ctx):
             newsel = sl.cell(key)
             uses_new = any(n_.id == newsel.id for n_ in vg.walk(am)) and newsel.op != "cell0"
             old_neg = [l for l in leaves if _cell(l.node) == key and l.sign < 0 and l.conj]
-            forced = [l for l in leaves if l.node.op == "const" and l.sign < 0 and any(p[0] == "set" and "action" in vg.cells_of(p[1]) for p in l.part)]
+            # value written at the chosen entry, for an instance that is still choosing (not done before this step)
+            sv = nf.strip(newsel)
+            stored = sv.args[2] if sv.op == "store" and "action" in vg.cells_of(sv.args[1]) else None
+
+            def _assume(done_v, old_v):
+                def a_(n_):
+                    x_ = nf.strip(n_, True)
+                    while x_.op == "sub" or (x_.op == "meth" and x_.args[1] in ("reshape", "view", "squeeze", "unsqueeze", "clone", "flatten")):
+                        x_ = nf.strip(x_.args[0], True)
+                    if x_.op == "cell0" and x_.args[1] == "done":
+                        return done_v
+                    if x_.op == "cell0" and x_.args[1] == key:
+                        return old_v
+                    return None
+                return a_
+            switched_on = stored is not None and nf.kleene(stored, _assume(False, None)) is True
+            forced = [1] if switched_on and any(p[0] == "set" and "action" in vg.cells_of(p[1]) for l in leaves for p in l.part) else []
             ok = uses_new and bool(old_neg) and bool(forced)
             ctx.ob("C08.b", f"{cname}._step:mask", ok, sl.where,
                    f"action_mask' = ~chosen' with chosen' = chosen[action] := True  (uses updated selection: {uses_new}; old selections stay closed: {bool(old_neg)}; chosen entry closed: {bool(forced)})",
                    construct=f"{sl.fi.qualname}:mask-from-selection")
             # chosen' monotone up at the action
             cl = nf.boolwalk(newsel, {"chosen"})
-            up = any(_cell(l.node) == key and l.sign > 0 for l in cl) and any(l.node.op == "const" and bool(l.node.args[0]) and l.sign > 0 for l in cl)
-            ctx.ob("C08.b", f"{cname}._step:{key}", up, sl.where, f"{key}' keeps earlier selections and switches the chosen entry on", construct=f"{sl.fi.qualname}:{key}:monotone")
+            up = any(_cell(l.node) == key and l.sign > 0 for l in cl) and switched_on
+            ctx.ob("C08.b", f"{cname}._step:{key}", up, sl.where, f"{key}' keeps earlier selections and switches the chosen entry on (for an instance that was not finished before the step)", construct=f"{sl.fi.qualname}:{key}:monotone")
+            # an instance that already has its quota is still stepped while its batch-mates run (feasible padding actions): those
+            # steps must not add to the selection -- the reward counts every selected item
+            frozen = stored is not None and nf.kleene(stored, _assume(True, False)) is False
+            ctx.ob("C08.h", f"{cname}._step:{key}:frozen-once-finished", frozen, sl.where,
+                   f"value written at the chosen entry = {vg.show(stored, 3)[:90] if stored is not None else None}: for a finished instance it stays as it was -- {frozen}" +
+                   ("" if frozen else "; padding steps keep selecting, so an instance with a smaller quota ends with more items than its quota and a reward that depends on its batch-mates"),
+                   construct=f"{sl.fi.qualname}:{key}:padding-selects")
         else:
             old_pos = [l for l in leaves if _cell(l.node) == "action_mask" and l.sign > 0 and l.conj]
             sel = [l for l in leaves if l.node.op == "selected" and "action" in vg.cells_of(l.node) and l.sign < 0 and l.conj]
